@@ -64,6 +64,32 @@ def use_repo_in_process():
     os.environ.setdefault("PYTHONHASHSEED", "0")
 
 
+def kill_children(sig=9):
+    """kill every descendant of this process (runners of an implementation that hangs must not outlive the check)"""
+    me = os.getpid()
+    parents = {}
+    for d in os.listdir("/proc"):
+        if d.isdigit():
+            try:
+                with open(f"/proc/{d}/stat") as fd:
+                    parents[int(d)] = int(fd.read().rsplit(")", 1)[1].split()[1])
+            except (OSError, ValueError, IndexError):
+                pass
+    todo, victims = [me], []
+    while todo:
+        p = todo.pop()
+        for c, pp in parents.items():
+            if pp == p and c != me:
+                victims.append(c)
+                todo.append(c)
+    for v in victims:
+        try:
+            os.kill(v, sig)
+        except OSError:
+            pass
+    return victims
+
+
 # --------------------------------------------------------------------------- lock
 class Lock:
     def __init__(self, name="build"):
